@@ -12,7 +12,7 @@ RULE = ('corpus; RGB lattice with 52 steps per channel (thorough: all 140608 tri
         'transfer-function knee (10.31475/255) and real-valued ramps at distance > 1e-6 from it; random triples; '
         'uint8/uint16/int32/float32/float64 inputs and dtype= requests; stretch/stretch_rgb: random, constant and '
         'two-valued images of 11 integer + 2 float dtypes x all three call forms x (min,max,dtype) requests inside the '
-        'dtype range; as_rgb: channels None / number / array of 8 dtypes, each array channel = stretch(channel). Non-trivial = not all-black / not constant; distinct = distinct protocol line.')
+        'dtype range; as_rgb: channels None / number / array of 8 dtypes, each array channel = stretch(channel); call-level Lean model (argument decoding, dtype cast, stretch_rgb split, as_rgb incl. 1-D/N-D channels and its errors); dtype handling of the colour conversions (9 input dtypes x 12 dtype= requests, round-robin); size-threshold stream (tag size=threshold): 6 cases per run whose pixel count crosses 2^8, 2^15, 2^16 (+-1) with value ranges crossing 2^8 / 2^16 / 2^31 (stretch, stretch_rgb, as_rgb, the colour conversions on > 2^16 pixels incl. int32 values > 65535), judged like the small cases with the Lean driver (one image per protocol line); thorough adds two 2^24+1-pixel stretch images judged by the exact numpy-float64 oracle _stretch_oracle, whose bit-for-bit agreement with the Lean driver is established on every ordinary stretch case (stretch:oracle-vs-lean). Non-trivial = not all-black / not constant; distinct = distinct protocol line.')
 ASSUMPTIONS = ['channel values lie in [0,255]; no NaN/inf',
                'a*, b* of greys: the 4-digit sRGB matrix (rows sum to (0.9505, 1, 1.089)) and the 5-digit white point of the '
                'standards do not agree further; Lean (C20_lab_grey_bound, over the reals) proves 0 <= a* <= 500/95047 = 0.00526 '
@@ -175,7 +175,7 @@ def _eval_rgb(case):
                 if o.dtype != np.dtype(dt):
                     f.append(dict(kind='property', key=f'{fn}:dtype', detail=dict(requested=dt, got=str(o.dtype))))
     return dict(findings=f, nontrivial=bool(np.any(vals != 0)), sig=('rgb', case.get('dtype'), hash(vals.tobytes())),
-                n=n, tags=dict(kind='rgb', dtype=case.get('dtype', 'uint8'), cls=case.get('cls', 'random')))
+                n=n, tags=dict(kind='rgb', dtype=case.get('dtype', 'uint8'), cls=case.get('cls', 'random'), size=case.get('size', 'small')))
 
 
 def _eval_rgbimg(case):
@@ -239,7 +239,8 @@ def _eval_rgbimg(case):
                         f.append(dict(kind='property', key='rgb2lab:grey', detail=dict(
                             dtype=dt, rgb=T[greyrow][int(bad[0])].tolist(), got=L[greyrow][int(bad[0])].tolist(), want='a*=b*=0')))
     return dict(findings=f, nontrivial=bool(h > 1 and w > 1), sig=('rgbimg', json.dumps(case, sort_keys=True)),
-                tags=dict(kind='rgbimg', dtype=case.get('dtype', 'uint8'), layout=case.get('layout', 'C'), out=case.get('out', '-')))
+                tags=dict(kind='rgbimg', dtype=case.get('dtype', 'uint8'), layout=case.get('layout', 'C'), out=case.get('out', '-'),
+                          size=case.get('size', 'small')))
 
 
 DT_IN = ['uint8', 'uint16', 'uint32', 'uint64', 'int16', 'int32', 'int64', 'float32', 'float64']
@@ -380,6 +381,56 @@ def _dt_bounds(dt):
     return (-2 ** 24, 2 ** 24) if dt == np.float32 else (-2 ** 40, 2 ** 40)   # exactly representable bounds
 
 
+def _stretch_oracle(xv, lo, hi):
+    """exact O(N) transliteration of the Lean `stretchList` at Float in numpy float64 (same operations in the same
+    order: `(x - mn) * ((hi - lo) / ptp) + lo`, capped at `hi`; constant image -> `lo`). Its bit-for-bit agreement
+    with the Lean driver is checked on every ordinary stretch case (`stretch:oracle-vs-lean`); the size-threshold
+    cases too large for the protocol (2^24 + 1 pixels, thorough tier) are judged by it alone."""
+    x = np.asarray(xv, np.float64)
+    mn = x.min()
+    sh = x - mn
+    ptp = sh.max()
+    if not ptp > 0:
+        return np.full(x.shape, float(lo))
+    y = sh * ((float(hi) - float(lo)) / ptp) + float(lo)
+    if hi >= lo:
+        y = np.where(float(hi) < y, float(hi), y)
+    return y
+
+
+def _eval_stretch_big(case):
+    """a 1 x N image too large for the driver protocol: the statement's observables directly + the exact oracle"""
+    import mahotas as mh
+    g = np.random.default_rng(case['seed'])
+    n = case['n']
+    if case['dtype'].startswith('float'):
+        img = (g.random(n) * case['span'] + case['base']).astype(case['dtype']).reshape(1, n)
+    else:
+        img = (g.integers(0, case['span'] + 1, n) + case['base']).astype(case['dtype']).reshape(1, n)
+    before = img.copy()
+    lo, hi, odt = case['lo'], case['hi'], np.dtype(case['out'])
+    out = np.asarray(mh.stretch(img, lo, hi, dtype=odt))
+    f = []
+    if not np.array_equal(before, img):
+        f.append(dict(kind='property', key='stretch:input-modified', detail={}))
+    if out.dtype != odt or out.shape != img.shape:
+        f.append(dict(kind='property', key='stretch:dtype', detail=dict(got=str(out.dtype), shape=list(out.shape))))
+    else:
+        xv = img.astype(np.float64).ravel()
+        yv = out.ravel()
+        order = np.argsort(xv, kind='stable')
+        if np.any(np.diff(yv[order].astype(np.float64)) < 0):
+            f.append(dict(kind='property', key='stretch:monotone', detail=dict(n=n)))
+        if yv[int(np.argmin(xv))] != lo:
+            f.append(dict(kind='property', key='stretch:min-to-lower-bound', detail=dict(got=float(yv[int(np.argmin(xv))]), want=lo)))
+        if yv.min() < lo or yv.max() > hi:
+            f.append(dict(kind='property', key='stretch:range', detail=dict(min=float(yv.min()), max=float(yv.max()), lo=lo, hi=hi)))
+        if not f and not np.array_equal(_stretch_oracle(xv, lo, hi).astype(odt), yv):
+            f.append(dict(kind='model', key='stretch:oracle', detail=dict(n=n)))
+    return dict(findings=f, nontrivial=True, sig=json.dumps(case, sort_keys=True),
+                tags=dict(kind='stretch', size='threshold', dtype=case['dtype'], out=case['out'], cls='2^24+1'))
+
+
 def _eval_stretch(case):
     import mahotas as mh
     img = np.array(case['data'], dtype=object).astype(case['dtype']).reshape(case['shape'])
@@ -461,6 +512,8 @@ def _eval_stretch(case):
         # correspondence with the Lean model (Float, same operation order): bit-exact before the cast
         drv = next(drv_iter)
         mf = core.floats(drv['float'])
+        if not np.array_equal(_stretch_oracle(xv, lo, hi), mf):
+            f.append(dict(kind='model', key='stretch:oracle-vs-lean', detail=dict(channel=ci)))
         with np.errstate(all='ignore'):
             mcast = mf.astype(odt) if odt != np.bool_ else None
         if mcast is not None and not f:
@@ -484,7 +537,7 @@ def _eval_stretch(case):
     return dict(findings=f, nontrivial=nontriv, sig=json.dumps(case, sort_keys=True),
                 tags=dict(kind='stretch_rgb' if case.get('rgb') else 'stretch', dtype=case['dtype'], out=case['out'],
                           form=form, layout=case.get('layout', 'C'), cls=case.get('cls', 'random'),
-                          dtype_as=case.get('dtype_as', 'numpy-dtype')))
+                          dtype_as=case.get('dtype_as', 'numpy-dtype'), size=case.get('size', 'small')))
 
 
 def _eval_asrgb(case):
@@ -546,7 +599,8 @@ def _eval_asrgb(case):
                 ref = np.asarray(mh.stretch(c))
             if not np.array_equal(ref, y):
                 f.append(dict(kind='property', key='as_rgb:channel-is-not-stretch', detail=dict(channel=k)))
-    return dict(findings=f, nontrivial=nontriv, sig=json.dumps(case, sort_keys=True), tags=dict(kind='as_rgb', cls='image'))
+    return dict(findings=f, nontrivial=nontriv, sig=json.dumps(case, sort_keys=True),
+                tags=dict(kind='as_rgb', cls='image', size=case.get('size', 'small')))
 
 
 def _asrgb_special(rng):
@@ -624,6 +678,8 @@ def evaluate(cases):
             out.append(_eval_asrgb(c))
         elif k == 'dtypes':
             out.append(_eval_dtypes(c))
+        elif k == 'stretch_big':
+            out.append(_eval_stretch_big(c))
         else:
             raise core.Infra(f'unknown case kind {k}')
     return out
@@ -702,8 +758,57 @@ def _stretch_case(rng):
     return c
 
 
+def _size_threshold_cases(rng, tier):
+    """size-threshold stream: pixel counts crossing 2^8, 2^15, 2^16 (+-1) with value ranges crossing 2^8 / 2^16 / 2^31
+    (a counter, index or accumulator narrowed to 16 bits or float32 passes every small case). Judged like the small
+    cases (statement's observables + Lean driver, the pixels of one image in one protocol line); thorough tier adds
+    2^24 + 1 pixels judged by the exact numpy oracle `_stretch_oracle`."""
+    def npx(k):
+        return 2 ** k + rng.choice([-1, 0, 1])
+    def spread(n, centre, span):
+        # n values around `centre`, many distinct, crossing it in both directions, in a scrambled order
+        return [int(centre - span // 2 + (i * 7919 + 13) % span) for i in range(n)]
+    out = []
+    n = npx(8)
+    out.append(dict(kind='stretch', size='threshold', dtype='int16', shape=[1, n], data=spread(n, 256, 300), form=2, lo=-128, hi=127,
+                    out='int8', rgb=False, layout='C', cls='threshold'))
+    n = npx(16)
+    dt = rng.choice(['int32', 'uint32', 'float64'])
+    shape = rng.choice([[1, n], [257, 256]])
+    n = shape[0] * shape[1]
+    data = spread(n, 65536, 80000)
+    form, lo, hi, odt = rng.choice([(2, 0, 65535, 'uint16'), (2, -70000, 70000, 'int32'), (1, 0, 65536, 'uint32'), (0, 0, 255, 'uint8')])
+    out.append(dict(kind='stretch', size='threshold', dtype=dt, shape=shape, data=[float(v) for v in data] if dt == 'float64' else data,
+                    form=form, lo=lo, hi=hi, out=odt, rgb=False, layout=rng.choice(['C', 'F', 'strided']), cls='threshold'))
+    n = npx(15)
+    data = [v for i in range(n) for v in (2 ** 31 - 40000 + (i * 7919) % 80000, 65536 - 300 + (i * 31) % 600, 255 - 100 + (i * 7) % 200)]
+    out.append(dict(kind='stretch', size='threshold', dtype='uint32', shape=[1, n, 3], data=data, form=1, lo=0, hi=65535, out='uint16',
+                    rgb=True, layout='C', cls='threshold'))
+    n = npx(16)
+    out.append(dict(kind='as_rgb', size='threshold', cls='image', shape=[1, n], chans=[
+        dict(t='array', dtype='uint16', data=[(i * 7919) % 65536 for i in range(n)]),
+        dict(t='array', dtype='float64', data=[float(65536 - 1000 + (i * 31) % 2000) + 0.5 for i in range(n)]),
+        rng.choice([None, dict(t='scalar', v=rng.randint(0, 255))])]))
+    # colour conversions on more than 2^16 pixels: column form against the Lean model, image form in a strided layout
+    n = 2 ** 16 + rng.choice([1, 2])
+    tri = [(i * 7919 + k * 101) % 256 for i in range(n) for k in range(3)]
+    out.append(dict(kind='rgb', size='threshold', rgb=tri, dtype=rng.choice(['uint8', 'uint16', 'int32']), cls='threshold'))
+    px = [(i * 31 + k * 57) % 256 for i in range(257 * 256) for k in range(3)]
+    for j in range(0, len(px), 3 * 4099):          # a few pixels far beyond 16 bits (the conversions are pixelwise for any value)
+        px[j] = 70000 + j % 1000
+    out.append(dict(kind='rgbimg', size='threshold', shape=[257, 256], rgb=px, dtype='int32', layout=rng.choice(['C', 'F', 'strided'])))
+    if tier == 'thorough':
+        out.append(dict(kind='stretch_big', n=2 ** 24 + 1, seed=rng.randint(0, 2 ** 31), dtype='uint8', base=0, span=255,
+                        lo=0, hi=255, out='uint8'))
+        out.append(dict(kind='stretch_big', n=2 ** 24 + 1, seed=rng.randint(0, 2 ** 31), dtype='float32', base=-1, span=2,
+                        lo=-(2 ** 24) - 1, hi=2 ** 24 + 1, out='int32'))
+    return out
+
+
 def cases(rng, tier):
     out = list(_corpus()) if tier != 'search' else []
+    if tier != 'search':
+        out += _size_threshold_cases(rng, tier)
     # always: white / black / greys and the knee
     greys = [v for g in range(256) for v in (g, g, g)]
     out.append(dict(kind='rgb', rgb=greys, dtype='uint8', cls='greys'))
